@@ -131,6 +131,25 @@ def reach_least_instance(c, Zt):
 
 # ---- contracts ----------------------------------------------------------------
 
+class _LoopSetArg(object):
+    """a loop context whose contract context reads a set-typed `nodes` argument as a collection"""
+    def __init__(self, lc):
+        self.__dict__['lc'] = lc
+
+    def __getattr__(self, name):
+        lc = self.__dict__['lc']
+        if name == 'c':
+            c = lc.c
+
+            class _C(object):
+                def __getattr__(self_, n_):
+                    if n_ == 'nodes':
+                        return hp.SV('coll', None, hp.Coll('H', c.h0.set_of(c.nodes.t), True))
+                    return getattr(c, n_)
+            return _C()
+        return getattr(lc, name)
+
+
 def make():
     K = []
 
@@ -448,6 +467,34 @@ def make():
         requires=reach_req, ensures=reach_ens, skolems=reach_skolems,
         raises={'RuntimeError': lambda c: z3.Not(hp.subset(c.nodes.x.mem, V(c.h0, c.self.t)))},
         loops={1: reach_l1, 2: reach_l2}, touches={'sets'}, loop_touches={1: {'sets'}, 2: {'sets'}}, owner='C13'))
+
+    # the same function when the caller passes a SET OBJECT (possibly one of the graph's own successor sets, as
+    # next() hands them out): the argument is neither written nor returned
+    class _SetArg(object):
+        def __init__(self, c):
+            self.__dict__['c'] = c
+
+        def __getattr__(self, name):
+            c = self.__dict__['c']
+            if name == 'nodes':
+                return hp.SV('coll', None, hp.Coll('H', c.h0.set_of(c.nodes.t), True))
+            return getattr(c, name)
+
+    def reach_set_req(c):
+        return reach_req(_SetArg(c)) + [('argument_valid', z3.And(c.nodes.t >= 0, c.nodes.t < c.h0.alloc))]
+
+    def reach_set_ens(c):
+        return reach_ens(_SetArg(c)) + [('argument_unchanged', c.h1.set_of(c.nodes.t) == c.h0.set_of(c.nodes.t)),
+                                        ('result_is_not_the_argument', c.res.t != c.nodes.t)]
+
+    K.append(Contract(
+        'DiGraph.get_reachable_set_from(set)', 'graph', [('self', 'graph'), ('nodes', 'set')], ret='set',
+        requires=reach_set_req, ensures=reach_set_ens, skolems=reach_skolems,
+        raises={'RuntimeError': lambda c: z3.Not(hp.subset(c.h0.set_of(c.nodes.t), V(c.h0, c.self.t)))},
+        loops={1: lambda lc: reach_l1(_LoopSetArg(lc)), 2: lambda lc: reach_l2(_LoopSetArg(lc))},
+        touches={'sets'}, loop_touches={1: {'sets'}, 2: {'sets'}},
+        hints={'path': 'DiGraph.get_reachable_set_from'}, owner='C13',
+        note='argument of type set (aliasing with the caller\'s or the graph\'s own sets allowed)'))
 
     # -- compute_SCCs: ASSUMED contract (the statement of C12; the body - iterative Nuutila with
     #    explicit stacks, integer time stamps and a yield inside try/except inside while - is out of
